@@ -21,7 +21,8 @@ ISOLATE = True
 RULE = ("exhaustive: every unit object of quantity.predefined (symbol, name, type, "
         "is_ref_unit, (1*u).convert(reference unit)) with its index in the generated "
         "catalogue; every ordered pair of units of each of the 14 types (temperature "
-        "included) with 3 amounts (thorough: 8 amounts, random default rounding mode); "
+        "included) with 3 amounts (thorough: 8 amounts, random default rounding mode, plus "
+        "the quantized type's pairs x 3 off-grid amounts x all 8 modes); "
         "every entry of quantity.si_prefixes.SI_PREFIXES; every row of every table of "
         "the live quantity.predefined.__doc__ with the equivalent computed by the "
         "implementation; every temperature formula with 3 amounts. The model's scales "
@@ -46,8 +47,6 @@ REF_UNIT = {'Mass': 'kg', 'Length': 'm', 'Duration': 's', 'Area': 'm²',
             'Volume': 'm³', 'Velocity': 'm/s', 'Acceleration': 'm/s²',
             'Force': 'N', 'Energy': 'J', 'Power': 'W', 'Frequency': 'Hz',
             'DataVolume': 'B', 'DataThroughput': 'B/s', 'Temperature': None}
-
-KNOWN_DOC_KEY = 'C20-doc-celsius-kelvin-273,25'
 
 AMOUNTS_Q = [F(1), F(-1, 3), F(12345, 10)]
 AMOUNTS_T = AMOUNTS_Q + [F(0), F(10) ** 30, F(10) ** -30, F(22, 7),
@@ -91,6 +90,13 @@ def gen_cases(rng, tier):
             for a in amounts:
                 dm = 'MHEVEN' if tier == 'quick' else rng.choice(W.MODES)
                 cases.append({'k': 'conv', 'u': u, 'v': v, 'a': _spec(a, rng), 'dm': dm})
+        if tier != 'quick' and t['quantum'] is not None:
+            # the quantized type: off-grid amounts under every default rounding mode
+            for u, v in itertools.product(us, us):
+                for a in (F(1, 3), F(-7, 16), F(1234567, 1000)):
+                    for dm in W.MODES:
+                        cases.append({'k': 'conv', 'u': u, 'v': v, 'a': _spec(a, rng),
+                                      'dm': dm})
     npre = len(TC.scan_prefixes()[0])
     for i in range(npre):
         cases.append({'k': 'prefix', 'i': i})
@@ -114,9 +120,21 @@ def gen_cases(rng, tier):
 
 # ------------------------------------------------------------ implementation
 
-def _doc_live():
+_DOC = None
+
+
+def impl_setup():
+    """Once per worker process: declare the catalogue (children are forked
+    from here) and parse the LIVE module documentation."""
+    global _DOC
     import quantity.predefined as pd
-    return TC.parse_doc(pd.__doc__)
+    _DOC = TC.parse_doc(pd.__doc__)
+
+
+def _doc_live():
+    if _DOC is None:
+        impl_setup()
+    return _DOC
 
 
 def _equiv_entries(p):
@@ -175,6 +193,12 @@ def impl_run(case):
                 'name': pfx.name, 'abbr': pfx.abbr, 'exp': pfx.exp,
                 'factor': W.guarded(lambda: pfx.factor),
                 'mapped': W.guarded(lambda: sp.SI_PREFIX_MAP[pfx.factor] is pfx)}
+    if k == 'f10':
+        # regression for the repaired finding F10: the old text must be gone
+        c, kv = _unit('°C'), _unit('K')
+        return {'old_text_present': case['text'] in (pd.__doc__ or ''),
+                'res': W.guarded(lambda: (0 * c).convert(kv)),
+                'back': W.guarded(lambda: (0 * kv).convert(c))}
     p = _doc_live()
     if k in ('docrow', 'docsec'):
         s = p['sections'][case['si']]
@@ -373,6 +397,14 @@ def oracle(case, r):
         if r['mapped'] != {'k': 'bool', 'v': True}:
             return f"SI_PREFIX_MAP does not map 10^{e} to {r['name']}"
         return None
+    if k == 'f10':
+        if r['old_text_present']:
+            return f"documentation again contains `{case['text']}` (finding F10)"
+        if not _is_qty(r['res'], 'Temperature', 'K') or F(r['res']['amt']) != F(27315, 100) \
+                or not _is_qty(r['back'], 'Temperature', '°C') \
+                or F(r['back']['amt']) != F(-27315, 100):
+            return f"0 °C -> K = {r['res']}, 0 K -> °C = {r['back']}; SI says +-273.15"
+        return None
     if k == 'docsec':
         if r['type'] not in REF_UNIT:
             return f"documentation section for unknown type {r['type']}"
@@ -429,14 +461,6 @@ def oracle(case, r):
                 or r['cls'] != 'Temperature':
             return f"documentation: '{r['sym']}' listed under {r['type']}"
         return None
-    return None
-
-
-def classify(case, r, msg):
-    if isinstance(case, dict) and case.get('k') == 'docequiv' and r \
-            and {r['from'], r['to']} == {'°C', 'K'} and r['exact'] \
-            and abs(F(r['val'])) == F(27325, 100) and 'documentation row' in msg:
-        return KNOWN_DOC_KEY
     return None
 
 
